@@ -5,6 +5,7 @@ import (
 	"fmt"
 	"math"
 	"math/big"
+	"regexp"
 	"strings"
 
 	clip "github.com/bolom009/go-clipper2"
@@ -386,6 +387,8 @@ func init() {
 					sig := sigOf(c)
 					if prop == "C10" {
 						sig = c10Sig(c, resp, sig)
+					} else {
+						sig = c05Sig(c, resp, sig)
 					}
 					if !col.KindFull(kind + "|" + sig[:4]) {
 						col.Violate(Violation{Property: prop, Kind: kind + "|" + sig[:4], Signature: sig, Detail: detail, Case: c, Stream: stream, Index: i, Seed: ctx.Seed})
@@ -403,6 +406,8 @@ func init() {
 				sig := sigOf(c)
 				if prop == "C10" {
 					sig = c10Sig(c, resp, sig)
+				} else {
+					sig = c05Sig(c, resp, sig)
 				}
 				return &Violation{Property: prop, Kind: kind, Signature: sig, Detail: detail, Case: c}
 			}
@@ -475,6 +480,29 @@ func init() {
 			}
 			return c
 		})
+}
+
+// a shrinking offset whose result comes at most 0.6 units closer to an input edge than delta minus the
+// 2-unit tolerance allows (KNOWN_FINDINGS.txt: site:shrink-corner-sliver): a failing kind-7 / kind-9
+// sample (a point of the solution too close to an input edge) whose shortfall is that small
+func c05Sig(c offCase, resp, fallback string) string {
+	m := regexp.MustCompile(`bad kind=(7|9) .*dist2ToEdges=(-?\d+)/(\d+) bound2=(-?\d+)/(\d+)`).FindStringSubmatch(resp)
+	if m == nil {
+		return fallback
+	}
+	f := func(n, d string) float64 {
+		r, ok := new(big.Rat).SetString(n + "/" + d)
+		if !ok {
+			return math.NaN()
+		}
+		v, _ := r.Float64()
+		return math.Sqrt(v)
+	}
+	dist, bound := f(m[2], m[3]), f(m[4], m[5])
+	if bound-dist >= 0 && bound-dist <= 0.6 {
+		return "site:shrink-corner-sliver"
+	}
+	return fallback
 }
 
 // the end-cap defect (KNOWN_FINDINGS.txt: site:open-path-end-cap): a failing sample that projects
